@@ -829,10 +829,17 @@ func normalPairs(out *hx.Out, path string, reps int, timeout time.Duration) {
 			hx.Current(map[string]any{"part": "normal pairs", "case": c, "apis": apis})
 			s := newSUT(int64(n)*31 + int64(rep) + hx.Seed())
 			s.clk.Advance(1)
-			for _, m := range []*traits.ElectricMode{{Id: "a"}, {Id: "b"}, {Id: "c", Normal: c.Init == "other"}} {
+			// init "del" (a switch to a against DeleteMode(a)): a is the normal mode, c is active
+			for _, m := range []*traits.ElectricMode{{Id: "a", Normal: c.Init == "del"}, {Id: "b"}, {Id: "c", Normal: c.Init == "other"}} {
 				if err := s.m.AddMode(m); err != nil {
 					hx.Fatal("pairs setup: %v", err)
 				}
+			}
+			if c.Init == "del" {
+				if _, err := s.m.ChangeActiveMode("c"); err != nil {
+					hx.Fatal("pairs setup: %v", err)
+				}
+				s.clk.Advance(1)
 			}
 			line := pairLine{Kind: "pair", Case: n + 1, Rep: rep, Init: c.Init, Ops: c.Ops, APIs: apis, Errs: []string{"", ""}, Now: s.clk.Ticks()}
 			line.Pre, _ = s.state("model", s.ids.toAbsOrSeen)
@@ -841,6 +848,7 @@ func normalPairs(out *hx.Out, path string, reps int, timeout time.Duration) {
 			s.clk.meetAt(rv)
 			var wg sync.WaitGroup
 			var pmu sync.Mutex
+			var firstDone atomic.Bool
 			for i := range c.Ops {
 				wg.Add(1)
 				go func() {
@@ -853,7 +861,17 @@ func normalPairs(out *hx.Out, path string, reps int, timeout time.Duration) {
 						line.Errs[i], line.Panic = "Panic", p
 					}
 					pmu.Unlock()
+					if i == 0 {
+						firstDone.Store(true)
+					}
 				}()
+				if i == 0 {
+					// the second call starts when the first one is parked between its check (lookup) and
+					// its write (commit), or has answered
+					for dl := time.Now().Add(timeout); rv.arrivals() == 0 && !firstDone.Load() && time.Now().Before(dl); {
+						time.Sleep(20 * time.Microsecond)
+					}
+				}
 			}
 			wg.Wait()
 			s.clk.meetAt(nil)
